@@ -200,20 +200,9 @@ theorem splitArrow_one : ∀ (a b : List Tok), noArrow a = true → noArrow b = 
     unfold splitArrow
     simp [ha.1, ih]
 
-/-! ### `dropTrailingRp` -/
+/-! ### `dropOneRp` -/
 
-theorem dropTrailingRp_snoc : ∀ (xs : List Tok), xs.getLast? ≠ some Tok.rp →
-    dropTrailingRp (xs ++ [Tok.rp]) = xs
-  | [], _ => by simp [dropTrailingRp]
-  | [x], h => by
-    have hx : x ≠ Tok.rp := by intro hc; apply h; simp [hc]
-    simp [dropTrailingRp, hx]
-  | x :: y :: rest, h => by
-    have h' : (y :: rest).getLast? ≠ some Tok.rp := by
-      rw [List.getLast?_cons_of_ne_nil (by simp)] at h; exact h
-    have ih := dropTrailingRp_snoc (y :: rest) h'
-    simp only [List.cons_append] at ih ⊢
-    unfold dropTrailingRp
-    simp [ih]
+theorem dropOneRp_snoc (xs : List Tok) : dropOneRp (xs ++ [Tok.rp]) = xs := by
+  simp [dropOneRp]
 
 end ILV.RText
